@@ -1,6 +1,9 @@
 package circuitbreaker
 
-import "time"
+import (
+	"sync"
+	"time"
+)
 
 // ---------------------------------------------------------------------------
 // C08 harnesses, package circuitbreaker (overlay only; never written to /repo).
@@ -628,4 +631,83 @@ func verifC08_RefineTime() {
 	}
 	verifAssert(w.total == sumT && w.slow == sumS && w.failure == sumF, "window-totals")
 	verifAssert(int(sumT) == len(ref.win), "no-call-outside-the-window")
+}
+
+// ---------------------------------------------------------------------------
+// Concurrent callers: the breaker is OPEN with the wait elapsed; several threads
+// acquire and then record. Every schedule within the preemption bound: at most
+// `permitted` calls are admitted in the half-open episode, the final state is
+// what the recorded trial results imply, and the breaker's fields are race free.
+// ---------------------------------------------------------------------------
+func verifC08_Conc() {
+	permitted := uint32(verifChoose("permittedInHalfOpen", 2) + 1)
+	p := &Policy{FailureRateThreshold: 50, SlowCallRateThreshold: 100, SlidingWindowType: CountBased, SlidingWindowSize: 2,
+		PermittedNumberOfCallsInHalfOpen: permitted, MinimumNumberOfCalls: permitted, SlowCallDurationThreshold: time.Minute,
+		WaitDurationInOpen: time.Second}
+	vWallOnly = false
+	vMono = 0
+	nowFunc = vNow
+	cb := New(p)
+	verifRaceScope(cb, "CircuitBreaker")
+	// open it: two failures
+	_, id := cb.AcquirePermission()
+	cb.RecordResult(id, true, 0)
+	cb.RecordResult(id, true, 0)
+	verifAssert(cb.State() == StateOpen, "opened")
+	vMono = int64(2 * time.Second) // the wait has elapsed
+
+	hoID := cb.stateID + 1 // admissions of the half-open episode carry this tag
+	threads := verifBound("threads")
+	var admitted, failures, later, laterFails int
+	var mu sync.Mutex
+	var wg sync.WaitGroup
+	for t := 0; t < threads; t++ {
+		wg.Add(1)
+		go func() {
+			defer wg.Done()
+			ok, tag := cb.AcquirePermission()
+			if !ok {
+				return
+			}
+			fail := verifBool("trialFails")
+			mu.Lock()
+			if tag == hoID {
+				admitted++
+				if fail {
+					failures++
+				}
+			} else {
+				// admitted after the trials closed the breaker again: an ordinary call
+				later++
+				if fail {
+					laterFails++
+				}
+			}
+			mu.Unlock()
+			cb.RecordResult(tag, fail, 0)
+		}()
+	}
+	wg.Wait()
+	verifAssert(uint32(admitted) <= permitted, "at-most-permitted-trials-admitted")
+	verifAssert(later == 0 || (uint32(admitted) == permitted && uint32(failures)*100 < uint32(p.FailureRateThreshold)*permitted),
+		"calls-pass-after-half-open-only-when-the-trials-closed-the-breaker")
+	if uint32(admitted) == permitted {
+		// all trials recorded: the episode is decided by the failure rate of the trials
+		// (results completing after the decision belong to an earlier state and are ignored)
+		st := cb.State()
+		verifAssert(st == StateOpen || st == StateClosed, "half-open-episode-decided")
+		if failures == 0 && laterFails == 0 {
+			verifAssert(st == StateClosed, "all-trials-succeeded-closes")
+			verifCover("closed-by-recovery")
+		}
+		if uint32(failures) == permitted {
+			verifAssert(st == StateOpen && later == 0, "all-trials-failed-reopens")
+			verifCover("reopened")
+		}
+	} else {
+		verifAssert(cb.State() == StateHalfOpen, "undecided-episode-stays-half-open")
+	}
+	if uint32(threads) > permitted && uint32(admitted) == permitted {
+		verifCover("surplus-call-short-circuited")
+	}
 }
